@@ -72,11 +72,15 @@ VecSet(s, f, sf) ==
             ELSE Fired(SetF(s2, f, <<[s2[f][1] EXCEPT ![Clamp(s.int[1], Len(s2[f][1])) + 1] = s1[sf][1]]>>
                                    \o Tail(s2[f])))
 
+\* vectors longer than this are described by a hole class instead of being written out
+Materialise == 5000
 \* ONES / ZEROS: a positive size yields the constant vector, otherwise nothing
 VecConst(s, f, x) ==
   IF ~Has(s, "int", 1) THEN Unfired(s)
   ELSE LET s1 == PopN(s, "int", 1) IN
-       IF s.int[1] > 0 THEN Fired(PushOn(s1, f, SeqOf(x, s.int[1]))) ELSE Unfired(s1)
+       IF s.int[1] <= 0 THEN Unfired(s1)
+       ELSE IF s.int[1] <= Materialise THEN Fired(PushOn(s1, f, SeqOf(x, s.int[1])))
+       ELSE FiredH(PushOn(s1, f, <<>>), <<HoleAB(<<f, 1>>, "constvec", s.int[1], x)>>)
 
 \* ROTATE: scalar popped; a non-empty top vector is rotated left by one and gets the scalar last
 VecRotate(s, f, sf) ==
@@ -102,16 +106,14 @@ SortByKeys(v, keys) == LET sp == SortPairs([i \in 1..Len(v) |-> <<keys[i], v[i]>
                        IN [i \in 1..Len(v) |-> sp[i][2]]
 BoolKey(b) == IF b THEN 1 ELSE 0
 
+\* SORT: in place; floats are ordered by the IEEE total order, descending = reversed ascending
 VecSort(s, f, desc) ==
   IF ~Has(s, f, 1) THEN Unfired(s)
   ELSE LET v == s[f][1]
-           hasNaN == f = "fvec" /\ \E i \in 1..Len(v) : FIsNaN(v[i])
            asc == IF f = "bvec" THEN SortByKeys(v, [i \in 1..Len(v) |-> BoolKey(v[i])])
                   ELSE IF f = "ivec" THEN SortByKeys(v, v)
-                  ELSE IF hasNaN THEN v ELSE SortByKeys(v, [i \in 1..Len(v) |-> FKey(v[i])])
-           out == IF desc THEN Rev(asc) ELSE asc
-       IN IF hasNaN THEN FiredH(s, <<Hole(<<f, 1>>, "perm")>>)   \* no order among NaNs is documented
-          ELSE Fired(SetF(s, f, <<out>> \o Tail(s[f])))
+                  ELSE SortByKeys(v, [i \in 1..Len(v) |-> FTotalKey(v[i])])
+       IN Fired(SetF(s, f, <<IF desc THEN Rev(asc) ELSE asc>> \o Tail(s[f])))
 
 \* sums
 RECURSIVE IntSumE(_, _)
@@ -216,7 +218,7 @@ ApplyVector(n, s) ==
     \* unless already present
     [] n = "INTVECTOR.SET*INSERT" ->
          LET s0 == IF Has(s, "ivec", 1) THEN s ELSE PushOn(s, "ivec", <<>>) IN
-         IF ~Has(s0, "int", 1) THEN Res(s0, FALSE, <<>>)
+         IF ~Has(s0, "int", 1) THEN Res(s0, ~Has(s, "ivec", 1), <<>>)
          ELSE LET v == s0.ivec[1]
                   x == s0.int[1]
               IN Fired(SetF(PopN(s0, "int", 1), "ivec",
@@ -260,8 +262,7 @@ ApplyVector(n, s) ==
          ELSE LET s1 == PopN(s, "float", 3) IN
               IF ~Has(s, "int", 1) THEN Unfired(s1)
               ELSE LET len == Max2(s.int[1], 0) IN
-                   FiredH(PushOn(PopN(s1, "int", 1), "fvec", SeqOf(0, len)),
-                          [j \in 1..len |-> Hole(<<"fvec", 1, j>>, "float")])
+                   FiredH(PushOn(PopN(s1, "int", 1), "fvec", <<>>), <<HoleAB(<<"fvec", 1>>, "len", len, 0)>>)
     [] n = "FLOATVECTOR.SORT*ASC"  -> VecSort(s, "fvec", FALSE)
     [] n = "FLOATVECTOR.SORT*DESC" -> VecSort(s, "fvec", TRUE)
     [] n = "FLOATVECTOR.SUM" -> IF Has(s, "fvec", 1) THEN PushFloatSum(s, FloatSum(s.fvec[1])) ELSE Unfired(s)
